@@ -239,8 +239,18 @@ Print Assumptions c05_resume_returns_normally.
 Theorem c05_stored_result_values : forall (a : assets) (s : session), reachable_in a s ->
   forall i r res, nth_error (s_runs s) i = Some r -> In res (r_results r) ->
   (Z.of_nat (length (res_value res)) <= Z.max (max_result_chars (a_opts a)) 0)%Z.
-Proof. intros a s H i r res Hi Hin. exact (reachable_results a s H i r res Hi Hin). Qed.
+Proof. intros a s H i r res Hi Hin. exact (proj1 (reachable_results a s H i r res Hi Hin)). Qed.
 Print Assumptions c05_stored_result_values.
+
+(* What bounds the size of what a step stores: the input a result keeps (the operand of the router that saved it)
+   has at most max(MaxTemplateChars, 0) characters, so a router that reads back its own result cannot make the
+   session grow from visit to visit.  (In the modelled fragment the operand is always the text of the last input; the
+   bound is the engine's, stated here because the step limit bounds a sprint only if one step's cost is bounded.) *)
+Theorem c05_stored_result_inputs : forall (a : assets) (s : session), reachable_in a s ->
+  forall i r res, nth_error (s_runs s) i = Some r -> In res (r_results r) ->
+  (Z.of_nat (length (res_input res)) <= Z.max (max_template_chars (a_opts a)) 0)%Z.
+Proof. intros a s H i r res Hi Hin. exact (proj2 (reachable_results a s H i r res Hi Hin)). Qed.
+Print Assumptions c05_stored_result_inputs.
 
 (* Truncation, exactly: a text longer than the limit keeps as many of its first characters as the limit allows *)
 Theorem c05_truncate_exact : forall (s : text) (limit : Z),
